@@ -18,10 +18,13 @@
 (* (base, flange) pairs own consecutive ranges after N0, each kind in the    *)
 (* order of insertion.                                                       *)
 (*                                                                         *)
-(* Stiffener internals are not re-derived (DESIGN.md C13): for a stiffened   *)
-(* bay the module decides WHERE each stand-alone component matrix lands; the *)
-(* skin, panels, connections and point-load vectors are exact (PanelOps,     *)
-(* ConnectionOps, PanelFieldOps, PanelNL).                                   *)
+(* For a stiffened bay the module decides WHERE each stand-alone component    *)
+(* matrix lands (placement of the code's own component matrices) and, for    *)
+(* the 2-D stiffeners, also WHAT lands: BladeStiff2D and TStiff2D k0 / kG0 / *)
+(* kM are derived below from PanelOps, ConnectionOps and Bardell (section    *)
+(* "the 2-D stiffeners").  Of BladeStiff1D only the flange mass is derived;  *)
+(* its beam stiffness / geometric stiffness use equivalent moduli of the     *)
+(* flange laminate (E1, F1, S1, Jxx) and stay on the placement route.        *)
 (***************************************************************************)
 EXTENDS ConnectionOps, PanelNL
 
@@ -200,7 +203,9 @@ BayFext(bd, r) ==
     IN VAdd(PlaceVecSegs(Fext(bd.skin, r.skin, <<>>, ROne), size, SkinSegs(bd)),
             VSumFrom(f, 1, Len(bd.stiffs), VZero(size)))
 
-(* ---- the one stiffener internal that IS derived: mass of a 1-D blade stiffener's flange ------------------- *)
+(* density of a stiffener: its own if given, else the bay's *)
+StiffMu(bd, sd) == IF "mu" \in DOMAIN sd THEN sd.mu ELSE bd.skin.mu
+(* ---- the one internal of the 1-D stiffener that is derived: mass of a 1-D blade stiffener's flange ------------------- *)
 (* A beam of cross-section bf x hf along the line y = ys whose material points sit at distance z in [z0, z0 + bf]
    (z0 = h/2, h the skin thickness) from the skin's mid-surface, on the stiffener's side, and move with the skin's
    normal: velocity (u + z w,x, v + z w,y, w).  Kinetic energy 1/2 mu hf INT dx INT dz |velocity|^2; its Hessian has
@@ -234,9 +239,128 @@ B1dFlangeMass(bd, sd, dev) ==
         df == RAdd(z0, RDiv(sd.bf, Two))
         I2 == RMul(sd.bf, RAdd(RMul(z0, z0), RAdd(RMul(z0, sd.bf), RDiv(RMul(sd.bf, sd.bf), RFromInt(3)))))
         k == IF "KF_C13_Blade1DMassCouplingDoubled" \in dev THEN Two ELSE ROne
-        muhf == RMul(bd.skin.mu, hf)
+        muhf == RMul(StiffMu(bd, sd), hf)
         sc(x) == RMul(muhf, x)
     IN LineForm(B1dMassTerms(sc(sd.bf), sc(I2), sc(RMul(k, RMul(sd.bf, df)))), bd.skin, sd.ys)
+
+(* ---- the 2-D stiffeners, derived from the modules the panels come from ---------------------------------- *)
+(* What the stiffener classes compose (bladestiff2d.py, tstiff2d.py), written with PanelOps / ConnectionOps / Bardell:
+   BladeStiff2D  k0 = padup: a panel in the BAY's series (model, a, b, r, m, n, edge flags) with the padup laminate,
+                      reference surface shifted by -(h/2 + hb/2) (h skin, hb padup thickness), restricted to the strip
+                      y in [ys - bb/2, ys + bb/2], on the skin range
+                    + flange: a flat plate a x bf, orders mf x nf, flags FlangeFlags, own laminate, on its own range
+                    + skin-to-flange penalty connection = kind "BFycte" of ConnectionOps between the bay's series at
+                      y = ys and the flange's edge y = 0, constants KtKr(padup if present else skin, flange, "ycte")
+                 kG0 = flange only (its own Nxx, Nyy, Nxy);   kM = padup strip + flange
+   TStiff2D      k0 = base: a panel a x bb with its OWN series (orders mb x nb, flags BaseFlags, model of the bay),
+                      reference surface at its mid-surface, on its own range
+                    + flange as above, after the base
+                    + skin-to-base penalty = kind "SB" (face to face, distance dpb = h/2 + hb/2) integrated over the
+                      base area only: the skin's series over the strip [ys - bb/2, ys + bb/2], the base's over its
+                      whole width, the mixed block with the mapped-argument integrals (eta = c0 + c1 eta');
+                      kt = min(10^7, KtKr(skin, base, "bot-top"))
+                    + base-to-flange "BFycte" at the base's centre line y = bb/2 and the flange's edge y = 0
+                 kG0 = base + flange (own loads);   kM = base + flange
+   Every number of a 2-D stiffener is therefore derived; nothing of them stays on the placed-code-matrices route
+   (which is kept as the independent check of WHERE the bay puts them).  Not derived: BladeStiff1D's beam stiffness
+   and geometric stiffness (fk0f / fkG0f with the equivalent moduli E1, F1, S1, Jxx) -- only its mass is.
+   KF_C13_TStiffBaseStripInBayCoordinates: the T stiffener's base panel (width bb) carries y1 = ys - bb/2,
+   y2 = ys + bb/2 in BAY coordinates, so its own k0 / kG0 / kM integrate its series over eta in
+   [2 ys/bb - 2, 2 ys/bb] instead of [-1, 1] (outside the panel unless ys = bb/2). *)
+NoLoad == <<RZero, RZero, RZero>>
+SkinH(bd) == Thickness(bd.skin.stack)
+HalfGap(bd, sd) == RAdd(RDiv(SkinH(bd), Two), RDiv(Thickness(sd.blam.stack), Two))       \* h/2 + hb/2
+StripLo(sd) == RSub(sd.ys, RDiv(sd.bb, Two))
+StripHi(sd) == RAdd(sd.ys, RDiv(sd.bb, Two))
+PadPd(bd, sd) == [bd.skin EXCEPT !.stack = sd.blam.stack, !.off = RNeg(HalfGap(bd, sd)), !.y1 = StripLo(sd), !.y2 = StripHi(sd),
+                                 !.mu = StiffMu(bd, sd), !.Ncte = NoLoad]
+FlangePd(bd, sd) ==
+    [model |-> "plate", a |-> bd.skin.a, b |-> sd.bf, r |-> RZero, sina |-> RZero, cosa |-> ROne, m |-> sd.mf, n |-> sd.nf,
+     fl |-> FlangeFlags, stack |-> sd.flam.stack, off |-> RZero, y1 |-> RZero, y2 |-> sd.bf, mu |-> StiffMu(bd, sd), Ncte |-> NoLoad]
+TBasePd(bd, sd, dev) ==
+    LET bay == "KF_C13_TStiffBaseStripInBayCoordinates" \in dev
+    IN [model |-> bd.skin.model, a |-> bd.skin.a, b |-> sd.bb, r |-> bd.skin.r, sina |-> bd.skin.sina, cosa |-> bd.skin.cosa,
+        m |-> sd.mb, n |-> sd.nb, fl |-> BaseFlags, stack |-> sd.blam.stack, off |-> RZero,
+        y1 |-> IF bay THEN StripLo(sd) ELSE RZero, y2 |-> IF bay THEN StripHi(sd) ELSE sd.bb,
+        mu |-> StiffMu(bd, sd), Ncte |-> NoLoad]
+
+(* INT_{-1}^{1} g_ib(t) g_js^(ds)(c0 + c1 t) dt  with the flags of both functions: value and term-magnitude scale *)
+MappedPair(ib, flb, js, ds, fls, c0, c1) ==
+    LET fl == RMul(Flag(ib, flb), Flag(js, fls))
+        q  == PMul(D(ib, 0), PComposeLin(D(js, ds), c0, c1))
+        qa == PMul(PAbs(D(ib, 0)), PComposeLin(PAbs(D(js, ds)), RAbs(c0), RAbs(c1)))
+    IN << RMul(fl, PIntegrate(q, MinusOne, ROne)), RMul(RAbs(fl), RMul(Two, PEval(PAnti(qa), ROne))) >>
+(* Hessian of kt/2 INT_0^a INT_{y1}^{y2} |jump|^2 for the face-to-face jump of ConnectionOps (kind "SB", distance dsb)
+   between the skin series dS (amplitudes 1..Size(dS)) and the base series dB (amplitudes offB+1..), whose width
+   spans exactly [y1, y2] of the skin *)
+SkinBaseConn(dS, dB, y1, y2, kt, dsb, size, offB) ==
+    LET js == Jumps("SB", dsb)
+        e1 == Eta(dS, y1)   e2 == Eta(dS, y2)
+        c0 == RDiv(RAdd(e1, e2), Two)   c1 == RDiv(RSub(e2, e1), Two)
+        nS == Size(dS)   nB == Size(dB)
+        area == RDiv(RMul(dS.a, dS.b), Four)
+        sy(k) == RPow(RDiv(Two, dS.b), k)
+        (* mapped table [base dof][base j][skin dof][skin j][skin derivative] *)
+        MTab == Fn([db \in 1..3 |-> Fn([jb \in 0..(dB.n - 1) |-> Fn([ds \in 1..3 |-> Fn([jq \in 0..(dS.n - 1) |-> Fn([dd \in 0..1 |->
+                 MappedPair(jb, dB.fl[db][2], jq, dd, dS.fl[ds][2], c0, c1)])])])])])
+        which(r) == IF r >= 1 /\ r <= nS THEN 1 ELSE IF r > offB /\ r <= offB + nB THEN 2 ELSE 0
+        loc(r) == IF which(r) = 1 THEN r ELSE r - offB
+        dOf(P) == IF P = 1 THEN dS ELSE dB
+        yfac(P, ja, dya, dofa, Q, jb, dyb, dofb) ==
+            IF P = 1 /\ Q = 1 THEN PScale2(sy(dya + dyb), I1(ja, dya, dS.fl[dofa][2], jb, dyb, dS.fl[dofb][2], e1, e2))
+            ELSE IF P = 1 /\ Q = 2 THEN PScale2(RMul(c1, sy(dya)), MTab[dofb][jb][dofa][ja][dya])
+            ELSE IF P = 2 /\ Q = 1 THEN PScale2(RMul(c1, sy(dyb)), MTab[dofa][ja][dofb][jb][dyb])
+            ELSE PScale2(c1, I1(ja, 0, dB.fl[dofa][2], jb, 0, dB.fl[dofb][2], MinusOne, ROne))
+        entry(P, ra, Q, rb) ==
+            LET dP == dOf(P)   dQ == dOf(Q)
+                dofa == DofOf(dP, ra)  ia == IOf(dP, ra)  ja == JOf(dP, ra)
+                dofb == DofOf(dQ, rb)  ib == IOf(dQ, rb)  jb == JOf(dQ, rb)
+                pairOf(q, x, y) ==
+                    LET ta == js[q].terms[x]   tb == js[q].terms[y]
+                    IN IF ta.p = P /\ ta.dof = dofa /\ tb.p = Q /\ tb.dof = dofb
+                       THEN PScale2(RMul(kt, RMul(area, RMul(ta.c, tb.c))),
+                                    PMul2(AxisFactor("int", ia, ta.dx, dP.fl[dofa][1], dS.a, RZero, ib, tb.dx, dQ.fl[dofb][1], dS.a, RZero),
+                                          yfac(P, ja, ta.dy, dofa, Q, jb, tb.dy, dofb)))
+                       ELSE PairZero
+                all == FlattenSeq([q \in 1..Len(js) |-> FlattenSeq([x \in 1..Len(js[q].terms) |->
+                           [y \in 1..Len(js[q].terms) |-> pairOf(q, x, y)]])])
+            IN << RSum(Fn([k \in 1..Len(all) |-> all[k][1]])), RSum(Fn([k \in 1..Len(all) |-> all[k][2]])) >>
+    IN Fn([r \in 1..size |-> Fn([c \in 1..size |->
+          IF which(r) = 0 \/ which(c) = 0 THEN PairZero ELSE entry(which(r), loc(r), which(c), loc(c))])])
+
+BFConn(d1, d2, pos1, size, off1, off2) ==
+    LET kk == KtKr(d1, d2, "ycte")
+    IN ConnMatrix([kind |-> "BFycte", d1 |-> d1, d2 |-> d2, pos1 |-> pos1, pos2 |-> RZero, kt |-> kk[1], kr |-> kk[2], dsb |-> RZero],
+                  size, off1, off2, {})
+PartMat(d, mat, N, dev) == CASE mat = "k0" -> K0(d) [] mat = "kG0" -> KG0(d, N) [] mat = "kM" -> KM(d, dev)
+(* stand-alone matrix of stiffener i (size SkinN0 + own size; skin amplitudes first).  r: [k, mat, Nf, Nb] *)
+Blade2dMatrix(bd, sd, r, dev) ==
+    LET n0 == SkinN0(bd)
+        size == n0 + OwnSize(sd)
+        dSkin == CompleteDef(bd.skin)
+        pad == IF sd.base /\ r.mat # "kG0" THEN PlaceSegs(PartMat(CompleteDef(PadPd(bd, sd)), r.mat, NoLoad, dev), size, << Seg(0, 0, n0) >>)
+               ELSE PZero(size)
+        dF == CompleteDef(FlangePd(bd, sd))
+        fla == IF sd.flange THEN PlaceSegs(PartMat(dF, r.mat, r.Nf, dev), size, << Seg(n0, 0, OwnSize(sd)) >>) ELSE PZero(size)
+        con == IF sd.flange /\ r.mat = "k0"
+               THEN BFConn(IF sd.base THEN CompleteDef(PadPd(bd, sd)) ELSE dSkin, dF, sd.ys, size, 0, n0)
+               ELSE PZero(size)
+    IN PAddM(PAddM(pad, fla), con)
+TStiffMatrix(bd, sd, r, dev) ==
+    LET n0 == SkinN0(bd)
+        nb == 3 * sd.mb * sd.nb
+        size == n0 + OwnSize(sd)
+        dSkin == CompleteDef(bd.skin)
+        dB == CompleteDef(TBasePd(bd, sd, dev))
+        dF == CompleteDef(FlangePd(bd, sd))
+        parts == PAddM(PlaceSegs(PartMat(dB, r.mat, r.Nb, dev), size, << Seg(n0, 0, nb) >>),
+                       PlaceSegs(PartMat(dF, r.mat, r.Nf, dev), size, << Seg(n0 + nb, 0, OwnSize(sd) - nb) >>))
+        ktpb == RMin(RFromInt(10000000), KtKr(dSkin, dB, "bot-top")[1])
+    IN IF r.mat # "k0" THEN parts
+       ELSE PAddM(parts, PAddM(SkinBaseConn(dSkin, dB, StripLo(sd), StripHi(sd), ktpb, HalfGap(bd, sd), size, n0),
+                               BFConn(dB, dF, RDiv(sd.bb, Two), size, n0, n0 + nb)))
+StiffMatrix(bd, r, dev) ==
+    LET sd == bd.stiffs[r.k] IN IF sd.kind = "b2d" THEN Blade2dMatrix(bd, sd, r, dev) ELSE TStiffMatrix(bd, sd, r, dev)
 
 BayQuantity(bd, r, dev) ==
     CASE r.q = "size"  -> BaySize(bd)
@@ -244,6 +368,7 @@ BayQuantity(bd, r, dev) ==
       [] r.q \in {"k0", "kG0", "kM"} -> SkinSum(bd, r, dev)
       [] r.q = "fext"  -> BayFext(bd, r)
       [] r.q = "b1dmass" -> B1dFlangeMass(bd, bd.stiffs[r.k], dev)
+      [] r.q = "stiff" -> StiffMatrix(bd, r, dev)
 (* Literal property: every request yields its value.
    KF_C13_Blade2DWithoutFlangeRaises: get_size dereferences the flange of every 2-D blade stiffener,
      so a bay holding one without flange (documented as optional) answers no request at all.
@@ -332,6 +457,12 @@ BeamMassPSD == (Evald /\ IsBay /\ areq.q = "b1dmass") =>
     IN /\ MSym(M)
        /\ \A k \in 1..4 : RSign(Quad(M, AProbe(k, Len(M)))) >= 0
        /\ \A r, c \in 1..Len(M) : RSign(Minor(M, r, c)) >= 0
+(* a derived 2-D stiffener matrix is symmetric; stiffness and mass are positive semi-definite (probes) *)
+StiffenerSymmetricPSD == (Evald /\ IsBay /\ areq.q = "stiff") =>
+    /\ MSym(AVals)
+    /\ \A i \in 1..Len(aout), j \in 1..Len(aout) : RLe(RAbs(aout[i][j][1]), aout[i][j][2])
+    /\ (areq.mat \in {"k0", "kM"} /\ "KF_C04_OffsetCouplingSign" \notin ADeviations) =>
+           \A k \in 1..4 : RSign(Quad(AVals, AProbe(k, Len(aout)))) >= 0
 (* tangent of the assembly: symmetric, and at the undeformed state the linear stiffness incl. connections *)
 AsmAtRest == (Evald /\ IsAsm /\ areq.q = "kT") =>
     LET z == Fn([k \in 1..AsmSize(adef) |-> RZero])
